@@ -37,8 +37,6 @@ ASSUMPTIONS = [
 # No library is called.  Speed: per-byte lookup tables for IP / IP^-1, the S-boxes merged with P (eight 64-entry tables),
 # E done with shifts on a 34-bit copy of R (checked against the E table when the module is loaded), key schedules
 # cached per key.
-import functools
-
 _IP = [58, 50, 42, 34, 26, 18, 10, 2, 60, 52, 44, 36, 28, 20, 12, 4, 62, 54, 46, 38, 30, 22, 14, 6, 64, 56, 48, 40, 32, 24, 16, 8,
        57, 49, 41, 33, 25, 17, 9, 1, 59, 51, 43, 35, 27, 19, 11, 3, 61, 53, 45, 37, 29, 21, 13, 5, 63, 55, 47, 39, 31, 23, 15, 7]
 _FP = [40, 8, 48, 16, 56, 24, 64, 32, 39, 7, 47, 15, 55, 23, 63, 31, 38, 6, 46, 14, 54, 22, 62, 30, 37, 5, 45, 13, 53, 21, 61, 29,
@@ -1001,5 +999,5 @@ def label(case):
     if k == 'f4draw':
         s += '/fill-0-given' if case.get('rv') is not None else '/no-fill-given'
     if k == 'enc':
-        s = 'enc/%s/key%d/pin%02d' % (case['cls'], len(hex_key(case['key'])), len(case['pin']))
+        s = 'enc/%s/key%d/pin%s' % (case['cls'], len(hex_key(case['key'])), '04-09' if len(case['pin']) < 10 else '10-12')
     return s
